@@ -95,15 +95,18 @@ async def feed(ctx, events: list[tuple[Port, Token]]) -> None:
 class FnTransformer(Transformer):
     """Pure function per tag group: ``fn(dict name->plain value) -> dict name->plain value``."""
 
-    def __init__(self, name: str, workflow: Workflow, fn=None, chaos: Chaos | None = None):
+    def __init__(self, name: str, workflow: Workflow, fn=None, chaos: Chaos | None = None, fail_tags=()):
         super().__init__(name, workflow)
         self.fn = fn or (lambda d: d)
         self.chaos = chaos
+        self.fail_tags = set(fail_tags)  # failure injection: raise when processing these tags
 
     async def transform(self, inputs: MutableMapping[str, Token]) -> MutableMapping[str, Token | MutableSequence[Token]]:
         if self.chaos is not None:
             await self.chaos.point()
         tag = max((t.tag for t in inputs.values()), key=lambda s: len(s.split(".")))
+        if tag in self.fail_tags:
+            raise RuntimeError(f"vf: injected transformer failure at {self.name} tag {tag}")
         out = self.fn({k: from_token(v) for k, v in inputs.items()})
         return {k: to_token(v, tag) for k, v in out.items()}
 
@@ -157,3 +160,162 @@ class ShuffleTransformer(Transformer):
             await self.terminate(Status.CANCELLED)
         except Exception:  # noqa: BLE001
             await self.terminate(Status.FAILED)
+
+
+# ---------------------------------------------------------------------------------------------
+# conditional steps (same protocol as CWLConditionalStep / CWLLoopConditionalStep, without JS)
+
+from streamflow.core.utils import get_entity_ids, get_tag  # noqa: E402
+from streamflow.workflow.step import ConditionalStep  # noqa: E402
+from streamflow.workflow.token import IterationTerminationToken  # noqa: E402
+
+
+class _SkipPorts:
+    def add_skip_port(self, name: str, port: Port) -> None:
+        if port.name not in self.workflow.ports:
+            self.workflow.ports[port.name] = port
+        self.skip_ports[name] = port.name
+
+    def get_skip_ports(self):
+        return {k: self.workflow.ports[v] for k, v in self.skip_ports.items()}
+
+
+class PredConditional(_SkipPorts, ConditionalStep):
+    """forward on true; on false put a ``None`` token with the same tag on every skip port"""
+
+    def __init__(self, name: str, workflow: Workflow, pred=None, chaos: Chaos | None = None, fail_tags=()):
+        super().__init__(name, workflow)
+        self.pred = pred
+        self.chaos = chaos
+        self.skip_ports: dict[str, str] = {}
+        self.fail_tags = set(fail_tags)  # failure injection: raise when evaluating these tags
+
+    async def _eval(self, inputs):
+        if self.chaos is not None:
+            await self.chaos.point()
+        vals = {k: from_token(t) for k, t in inputs.items()}
+        if get_tag(inputs.values()) in self.fail_tags:
+            raise RuntimeError(f"vf: injected conditional failure at {self.name}")
+        return bool(self.pred(vals))
+
+    async def _on_true(self, inputs):
+        for port_name, port in self.get_output_ports().items():
+            port.put(
+                await self._persist_token(
+                    token=inputs[port_name].update(inputs[port_name].value),
+                    port=port,
+                    input_token_ids=get_entity_ids(inputs.values()),
+                )
+            )
+
+    async def _on_false(self, inputs):
+        for port in self.get_skip_ports().values():
+            port.put(
+                await self._persist_token(
+                    token=Token(value=None, tag=get_tag(inputs.values())),
+                    port=port,
+                    input_token_ids=get_entity_ids(inputs.values()),
+                )
+            )
+
+
+class LoopConditional(PredConditional):
+    """on false put an (unpersisted) IterationTerminationToken on the skip ports, like
+    CWLLoopConditionalStep"""
+
+    async def _on_false(self, inputs):
+        for port in self.get_skip_ports().values():
+            port.put(IterationTerminationToken(tag=get_tag(inputs.values())))
+
+
+# ---------------------------------------------------------------------------------------------
+# job pipeline kit: local deployment + ScheduleStep + ExecuteStep with a pure Python command
+
+from streamflow.core.config import BindingConfig  # noqa: E402
+from streamflow.core.deployment import LocalTarget  # noqa: E402
+from streamflow.core.workflow import Command, CommandOutput, Job  # noqa: E402
+from streamflow.workflow.step import (  # noqa: E402
+    DefaultCommandOutputProcessor,
+    DeployStep,
+    ExecuteStep,
+    ScheduleStep,
+)
+
+
+class ExecLog:
+    """harness-side record of what jobs did (independent of the database)"""
+
+    def __init__(self) -> None:
+        self.started: list[str] = []
+        self.finished: list[str] = []
+        self.running: set[str] = set()
+        self.max_concurrent = 0
+
+
+class PyCommand(Command):
+    """Pure function of the job inputs; duration = ``chaos.draw()`` loop turns; failure injection by
+    a plan ``{job_name: n_failures}`` counted in memory (``mode`` 'status' -> FAILED CommandOutput,
+    'raise' -> exception)."""
+
+    def __init__(self, step, fn, chaos: Chaos | None = None, log: ExecLog | None = None, fail_plan=None, mode="status"):
+        super().__init__(step)
+        self.fn = fn
+        self.chaos = chaos
+        self.log = log or ExecLog()
+        self.fail_plan = dict(fail_plan or {})
+        self.mode = mode
+
+    async def execute(self, job: Job) -> CommandOutput:
+        self.log.started.append(job.name)
+        self.log.running.add(job.name)
+        self.log.max_concurrent = max(self.log.max_concurrent, len(self.log.running))
+        try:
+            if self.chaos is not None:
+                for _ in range(self.chaos.draw() * 2):
+                    await asyncio.sleep(0)
+            if self.fail_plan.get(job.name, 0) > 0:
+                self.fail_plan[job.name] -= 1
+                if self.mode == "raise":
+                    raise RuntimeError(f"vf: injected failure of {job.name}")
+                return CommandOutput("vf: injected failure", Status.FAILED)
+            value = self.fn({k: from_token(t) for k, t in job.inputs.items()})
+            self.log.finished.append(job.name)
+            return CommandOutput(value, Status.COMPLETED)
+        finally:
+            self.log.running.discard(job.name)
+
+
+def deploy_step_for(wf: Workflow, deployment_config) -> DeployStep:
+    name = f"__deploy__/{deployment_config.name}"
+    if name in wf.steps:
+        return wf.steps[name]
+    return wf.create_step(cls=DeployStep, name=name, deployment_config=deployment_config)
+
+
+def local_deploy_step(wf: Workflow, workdir: str) -> DeployStep:
+    return deploy_step_for(wf, LocalTarget(workdir=workdir).deployment)
+
+
+def exec_pipeline(wf: Workflow, name: str, in_ports: dict[str, Port], fn, workdir: str | None, chaos=None, log=None, fail_plan=None,
+                  mode="status", targets=None, sched_kwargs=None) -> tuple[Port, ExecuteStep, ScheduleStep]:
+    """DeployStep(s) -> ScheduleStep -> ExecuteStep(PyCommand(fn)); returns the output port.
+    ``targets`` (list of Target) defaults to the local target with ``workdir``."""
+    targets = targets or [LocalTarget(workdir=workdir)]
+    binding = BindingConfig(targets=targets)
+    sched = wf.create_step(
+        cls=ScheduleStep,
+        name=name + "/__schedule__",
+        job_prefix=name,
+        connector_ports={t.deployment.name: deploy_step_for(wf, t.deployment).get_output_port() for t in targets},
+        binding_config=binding,
+        **(sched_kwargs or {}),
+    )
+    ex = wf.create_step(cls=ExecuteStep, name=name, job_port=sched.get_output_port())
+    for k, p in in_ports.items():
+        sched.add_input_port(k, p)
+        ex.add_input_port(k, p)
+    out = wf.create_port()
+    ex.add_output_port("out", out)
+    ex.output_processors["out"] = DefaultCommandOutputProcessor(name="out", workflow=wf)
+    ex.command = PyCommand(ex, fn, chaos=chaos, log=log, fail_plan=fail_plan, mode=mode)
+    return out, ex, sched
